@@ -30,6 +30,14 @@ func (b bitSrc) isConst() bool { return b.t == nil }
 
 // bitsOf returns the source of every bit of t (index 0 = least significant).
 func (s *Store) bitsOf(t *Term) []bitSrc {
+	if t.op == OpConst {
+		// never cached: constants are shared between workers
+		bits := make([]bitSrc, t.w)
+		for i := range bits {
+			bits[i] = constBit(t.c >> uint(i))
+		}
+		return bits
+	}
 	if t.bits != nil {
 		return t.bits
 	}
